@@ -724,7 +724,8 @@ func handleRandomkey(params internal.HandlerFuncParams) ([]byte, error) {
 
 	key := params.Randomkey(params.Context)
 
-	return []byte(fmt.Sprintf("+%v\r\n", key)), nil
+	// A key name is arbitrary bytes: it goes out as a bulk string, not as a simple string (which CR or LF would break).
+	return []byte(fmt.Sprintf("$%d\r\n%s\r\n", len(key), key)), nil
 }
 
 func handleGetdel(params internal.HandlerFuncParams) ([]byte, error) {
